@@ -123,6 +123,18 @@ Theorem C12_scalar_ops_mixed : forall r n d rs c s,
       usdiv_m (Dur r n d) rs c s = Val (Z.quot c s) /\ usmod_m (Dur r n d) rs c s = Val (Z.rem c s)).
 Proof. exact uscalar_ops_spec. Qed.
 
+(* duration * scalar for ALL representable operands: the product is formed in the type the usual arithmetic conversions
+   give for (common representation, scalar type); when that type is signed - int or long, in particular for two
+   uint16_t or uint8_t operands, which are promoted to int - a product outside it is undefined behaviour; otherwise,
+   and always for an unsigned 32/64-bit type, the result is the exact product modulo 2^bits *)
+Theorem C12_scalar_mul_mixed_total : forall r n d rs c s,
+  urep_ok r = true -> urep_ok rs = true -> period_ok n d = true -> uscalar_ok r rs c s = true ->
+  let rc := crep_spec r rs in
+  let t := arith_conv_spec rc rs in
+  usmul_m (Dur r n d) rs c s
+  = if usigned t && negb (ufits t (c * s)) then Ub SignedOverflow else Val (uwrap rc (c * s)).
+Proof. exact usmul_total. Qed.
+
 (** * member operators of duration and time_point *)
 Theorem C12_member_ops_mixed : forall r c x, urep_ok r = true -> ufits r c = true -> ufits r x = true ->
   (ufits r (- c) = true -> uneg_m r c = Val (- c))
@@ -215,8 +227,8 @@ Qed.
 Definition C12_group_mixed_representations :=
   (conj C12_rep_common_type (conj C12_common_type_mixed (conj C12_common_type_exact_mixed (conj C12_plus_mixed
    (conj C12_minus_mixed (conj C12_div_mod_mixed (conj C12_compare_mixed (conj C12_plus_minus_mixed_total
-   (conj C12_time_point_arith_mixed (conj C12_scalar_ops_mixed (conj C12_member_ops_mixed
-   (conj C12_duration_cast_mixed (conj C12_rounding_mixed (conj C12_abs_mixed (conj C12_converting_constructor_mixed C12_mixed_extends_signed))))))))))))))).
+   (conj C12_time_point_arith_mixed (conj C12_scalar_ops_mixed (conj C12_scalar_mul_mixed_total (conj C12_member_ops_mixed
+   (conj C12_duration_cast_mixed (conj C12_rounding_mixed (conj C12_abs_mixed (conj C12_converting_constructor_mixed C12_mixed_extends_signed)))))))))))))))).
 Print Assumptions C12_group_mixed_representations.
 
 (** * non-vacuity, and what the theorems distinguish.  time_point<ms, int64>{10000} - duration<uint32_t>{5}:
